@@ -493,7 +493,8 @@ class Parser:
         name = str(self._current_token)
         self.next_token()
         if self._detect_routine_start():
-            if not self._context.get_routine(name).undefined:
+            if (not self._context.get_routine(name).undefined
+                    or self._context.routine_was_defined(name)):
                 return self.token_error('Already defined: "{}"')
             return self._routine_definition(name)
         return self._macro_definition(name)
